@@ -13,6 +13,10 @@ CHECKS = {
              technique="custom MIR analysis: who-may-write role sets, must-pass-through, ghost-region effect analysis, unsafe census", ref="§4 C08"),
  "C09": dict(text="Static necessary conditions of canonical insertion: class allocation is dominated by a failed hashcons lookup and the hit path passes the e-graph mutably to nothing; lookup/lookup_rec_expr and the other &self API are read-only (receiver types, call-graph closure, interior-mutability census); add and lookup key the hashcons through the same strong-shape function; the looked-up invocation is filtered by the class slot set with the right orientation; rebuild-before-return; the allocating path drops redundant slots. Canonicity of returned values is not decided.",
              technique="custom MIR analysis: guard dominance, call-graph closure effect audit, sibling agreement on resolved callees, value dependence", ref="§4 C09"),
+ "C13": dict(text="Static necessary conditions of 'nothing is lost': no call anywhere removes a class record or a union-find entry (with a positive control on the matcher); the class slot set has a single writer whose value is an intersection; every ProgressMeasure field is computed from its documented source; canonicalising a possibly stale handle uses the partial composition in the right orientation; path compression combines the old edge with the recursive result. Temporal monotonicity of the equality relation is not decided.",
+             technique="custom MIR analysis: census of removal calls by resolved callee and receiver role, field-to-source value dependence, operand roles", ref="§4 C13"),
+ "C14": dict(text="Static necessary conditions of the analysis fixpoint (join-and-propagate discipline): every store to a class datum is Analysis::merge of the current datum with make(node) or with the other class's datum, stored in the survivor; on the changed edge both the modify queue and the parents' re-queue are fed on every path; N::modify runs after the pending loop with canonical ids; new classes are seeded from make and queued; the work-list handler updates the datum before the analysis-only early return. Equality with the least fixpoint is not decided.",
+             technique="custom MIR analysis: operand roles of datum stores, must-pass-through on the changed edge, guard dominance", ref="§4 C14"),
  "C02": dict(text="Static necessary conditions of congruence-closure completeness: inter-procedural work-list summaries prove that no public &mut entry point returns with a non-empty work-list in any feature configuration; the drain loop exits only on empty; every class-level change re-queues usages with Full; PendingType::merge truth table; remove/re-insert pairing and self-symmetry derivation in the work-list handler; orbit closure feeds the stored slot set (known finding F1). Does not decide that the fixpoint equals the congruence closure.",
              technique="custom MIR analysis: inter-procedural must-pass-through summaries (greatest fixpoint), path rules, exhaustive constant evaluation of a 2x2 match, value dependence", ref="§4 C02"),
  "C01": dict(text="Static necessary conditions of equality soundness, decided on the MIR of every feature configuration: eq() answers true only via the class-group membership test behind the id and slot-set guards on canonicalised operands; the slot-set writer's cap is an intersection; add-permutation / merge branch discipline; union-find edge orientation. Does not decide soundness of computed slot maps as values.",
